@@ -403,3 +403,38 @@ From RV Require Import Gen.C13Dcrit C13.DcritSites.
 Theorem C13_dcrit_refreshed_at_every_site : forall s, In s dcrit_sites -> snd s = true.
 Proof. exact dcrit_site_refreshed. Qed.
 Print Assumptions C13_dcrit_refreshed_at_every_site.
+
+(* ================= corners excluded by the hypotheses above: what the code does there (binary64 instance of the model) ===== *)
+From RV Require Import Common.FloatNum C13.Corners.
+From Coq Require Import PrimFloat.   (* last block of the file: shadows Reals.sqrt etc. from here on *)
+(* m_a + m_b = 0 (two test particles), excluded in C13_merge_conserves / C13_merge_conserves_total: the survivor becomes NaN *)
+Theorem C13_merge_massless_refuted :
+  let '(ps', o) := merge FloatNum.FNum 1%float 0x1.999999999999ap-4%float
+                         [tp 5%float 0x1.999999999999ap-4%float 1000; tp 0x1.499999999999ap+2%float (-0x1.999999999999ap-4)%float 1001] 0%Z 1%Z in
+  o = 2%Z /\ forallb (fun p : fp => PrimFloat.is_nan (px p) && PrimFloat.is_nan (pvx p)) (firstn 1 ps') = true.
+Proof. exact merge_massless_nan. Qed.
+(* m_1 + m_2 = 0, excluded in the C13_hardsphere_* theorems: both velocities become NaN *)
+Theorem C13_hardsphere_massless_refuted :
+  match hardsphere FloatNum.FNum 1%float 1%float 0%float 0%float 1%float 0%float (-1)%float (mkV6 0 0 0 0 0 0)%float
+                   (tp 5%float 0x1.999999999999ap-4%float 1000) (tp 0x1.499999999999ap+2%float (-0x1.999999999999ap-4)%float 1001) with
+  | Some (q1, q2) => PrimFloat.is_nan (pvx q1) && PrimFloat.is_nan (pvx q2)
+  | None => false
+  end = true.
+Proof. exact hardsphere_massless_nan. Qed.
+(* a NaN coordinate passes the pair test (both comparisons of the code are false for NaN) *)
+Theorem C13_direct_test_nan_passes :
+  direct_test FloatNum.FNum (mkV6 PrimFloat.nan 0 0 0 0 0)%float 0%float (mkF 1000 1000 1000 0 0 0 1 0 0 7%Z)%float = true.
+Proof. exact direct_test_nan_passes. Qed.
+(* dt_last_done = 0, excluded in C13_line_complete_and_sound: the LINE test degenerates to the overlap test at the end positions *)
+Theorem C13_line_dt_zero : 
+  line_test FloatNum.FNum 0%float (mkV6 0 0 0 1 0 0)%float 0x1p-1%float (mkF 0x1.8p-1 0 0 0 0 0 1 0x1p-2 0 7%Z)%float = true /\
+  line_test FloatNum.FNum 0%float (mkV6 0 0 0 1 0 0)%float 0x1p-1%float (mkF 0x1.8p+0 0 0 0 0 0 1 0x1p-2 0 7%Z)%float = false /\
+  line_test FloatNum.FNum 0%float (mkV6 0 0 0 0 0 0)%float 0x1p-1%float (mkF 0x1.8p-1 0 0 0 0 0 1 0x1p-2 0 7%Z)%float = true.
+Proof. exact line_dt_zero_is_overlap_test. Qed.
+(* N = 0 and N = 1: nothing found, nothing resolved *)
+Theorem C13_smallest_N :
+  search_direct FloatNum.FNum (gb_periodic FloatNum.FNum 1 1 1)%float 1 1 1 [] = [] /\
+  search_direct FloatNum.FNum (gb_periodic FloatNum.FNum 1 1 1)%float 1 1 1 [tp 0%float 0%float 1%Z] = [] /\
+  search_line FloatNum.FNum (gb_periodic FloatNum.FNum 1 1 1)%float 1 1 1 1%float [tp 0%float 0%float 1%Z] = [] /\
+  loop_ids false false (-1) [] [] [] = ([], [], (-1)%Z).
+Proof. exact search_empty. Qed.
